@@ -223,7 +223,8 @@ namespace vh {
         if (g_reporting) _exit(4);
         // memory released through operator delete during the run has been kept aside, filled with a pattern
         if (char const* dirty = heapq_first_dirty())
-            violation((g_ctx->prop + ".heap.write_after_release").c_str(), "%s", dirty);
+            violation((g_ctx->prop + (strstr(dirty, "released twice") ? ".heap.double_release" : ".heap.write_after_release")).c_str(),
+                "%s", dirty);
         heapq_enable(false);
         probe("heap.blocks_quarantined", heapq_count());
         g_reporting = true;
